@@ -343,12 +343,12 @@ def run(ctx):
     if len(rows) != nrun:
         ctx.machinery("replayed %d of %d runs" % (len(rows), nrun))
     interesting = [r for r in rows if r["c"]["op"] == "revert" and any(e["p"].endswith(".~1~") for e in r["impl"]["after"])]
-    if not interesting:
-        ctx.machinery("no replayed revert produced a backup file")
-    ctx.sample({k: v for k, v in interesting[0].items() if k != "spec"})
+    if interesting:
+        ctx.sample({k: v for k, v in interesting[0].items() if k != "spec"})
     m = next((r for r in rows if r["c"]["op"] in MERGEOPS and any(e["t"].endswith("L/I") for e in r["impl"]["after"])), None)
     if m:
         ctx.sample({k: v for k, v in m.items() if k != "spec"})
+    nprebad = 0
     for row, v in _judge(ctx, rows):
         c = row["c"]
         what = "%s %s on a %s tree with %s (via %s, outcome %s)" % (
@@ -356,7 +356,11 @@ def run(ctx):
             c["fl"], c["cls"], row["via"], row["out"])
         rep = {k: w for k, w in row.items() if k != "spec"}
         if v.get("prebad"):
-            ctx.machinery("fixture of %s is not the specified before-state: %s" % (what, row["impl"]["before"]))
+            # the class assignment is produced with real commands (an earlier merge, rm --keep ...): when they do not
+            # leave the specified state the case cannot be judged; reported, and fatal when it is not an exception
+            nprebad += 1
+            ctx.drift("fixture of %s is not the specified before-state: %s" % (what, row["impl"]["before"]), rep)
+            continue
         failed = sorted(v.get("failed", []))
         if failed:
             lost = sorted(v.get("lost", []))
@@ -372,6 +376,8 @@ def run(ctx):
         elif v.get("drift"):
             ctx.drift("%s: directory afterwards %s, the model puts things at %s" % (
                 what, {e["p"]: e["t"] for e in row["impl"]["after"]}, dict(row["spec"])), rep)
+    if nprebad * 4 > len(rows):
+        ctx.machinery("%d of %d fixtures are not the specified before-state" % (nprebad, len(rows)))
     ctx.rule("cases = tree flavour x class assignment {unch, edit, mergew, added, unknown, confl, missing, rmkept}^Files x "
              "{revert(all | file | d, backups?), remove(file | d, keep | force | default), uncommit, and for trees without "
              "pending merge merge / pull / update / switch (incoming same-region, other-region, delete, rename; colliding "
